@@ -220,62 +220,37 @@ func ruleELiteralCases(p *Program, r *Reporter) {
 
 func ruleEFilterGuardsRHS(p *Program, r *Reporter) {
 	fn := p.Func(p.Eval, "evaluator", "filterAndProjectArray")
-	isTrueFn := p.Func(p.Eval, "", "isTrue")
-	ev := p.Func(p.Eval, "evaluator", "evaluate")
-	if fn == nil || isTrueFn == nil || ev == nil {
+	vd := newValDom(p)
+	if fn == nil || vd.why != "" {
 		r.Unknown(token.NoPos, "filterAndProjectArray", "helper not found")
 		return
 	}
-	// which Node parameter is the predicate: the one whose evaluation feeds isTrue
-	var pred *ssa.Parameter
-	for _, b := range fn.Blocks {
-		for _, in := range b.Instrs {
-			c, ok := in.(*ssa.Call)
-			if !ok || calleeOf(&c.Call) != isTrueFn {
-				continue
-			}
-			if ex, ok := c.Call.Args[0].(*ssa.Extract); ok {
-				if c2, ok := ex.Tuple.(*ssa.Call); ok && calleeOf(&c2.Call) == ev {
-					pred, _ = c2.Call.Args[1].(*ssa.Parameter)
-				}
-			}
-		}
-	}
-	if pred == nil {
-		r.Bad(fn.Pos(), "filterAndProjectArray predicate", "no isTrue(evaluate(predicate, element)) found")
+	ff := filterFactsOf(p, vd, fn)
+	if ff.why != "" {
+		r.Unknown(fn.Pos(), "filterAndProjectArray right-hand side", ff.why)
 		return
 	}
-	n := 0
-	for _, b := range fn.Blocks {
-		for _, in := range b.Instrs {
-			c, ok := in.(*ssa.Call)
-			if !ok || calleeOf(&c.Call) != ev {
-				continue
-			}
-			prm, ok := c.Call.Args[1].(*ssa.Parameter)
-			if !ok || prm == pred {
-				continue
-			}
-			n++
-			key := fmt.Sprintf("filterAndProjectArray right-hand side evaluation#%d", n)
-			guarded := false
-			for _, f := range blockFacts(b) {
-				if call, ok := f.Cond.(*ssa.Call); ok && calleeOf(&call.Call) == isTrueFn && f.Truth {
-					guarded = true
-				}
-			}
-			if guarded {
-				r.OK(c.Pos(), key, "evaluated only under isTrue(predicate result)")
-			} else {
-				r.Bad(instrPos(c), key, "the right-hand side is evaluated for elements the predicate has not accepted: x[?p].e fails (or costs) on elements that x[?p] | [*].e never looks at")
-			}
+	var sites []token.Pos
+	for pos := range ff.rhsSites {
+		sites = append(sites, pos)
+	}
+	sort.Slice(sites, func(i, j int) bool { return sites[i] < sites[j] })
+	for n, pos := range sites {
+		key := fmt.Sprintf("filterAndProjectArray right-hand side evaluation#%d", n+1)
+		if why := ff.rhsSites[pos]; why == "" {
+			r.OK(pos, key, "by interpretation: on every path the projected node is evaluated only against an element for which isTrue(predicate result) holds")
+		} else {
+			r.Bad(pos, key, "the right-hand side is evaluated for elements the predicate has not accepted: x[?p].e fails (or costs) on elements that x[?p] | [*].e never looks at ("+why+")")
 		}
 	}
-	if n == 0 {
-		r.Unknown(fn.Pos(), "filterAndProjectArray right-hand side", "no evaluation of the projected node found")
+	if len(sites) == 0 {
+		if len(ff.keptUntested) > 0 {
+			r.Bad(fn.Pos(), "filterAndProjectArray predicate", ff.keptUntested[0])
+		} else {
+			r.Unknown(fn.Pos(), "filterAndProjectArray right-hand side", "no evaluation of the projected node found")
+		}
 	}
 }
-
 
 func ruleEFloatArithSites(p *Program, r *Reporter) {
 	for _, fn := range p.ReachFuncs(p.Eval) {
